@@ -348,7 +348,17 @@ def refplot_from_desc(desc):
             cen = [geo_lo[k] + (idx[k] + 0.5) * dx[lv][k] for k in range(nd)]
             arr = np.empty(shape + (len(fields),))
             for f, kind in enumerate(kinds):
+                # per-field modifiers: "<kind>*<factor>" scales, "<kind>+hostile" overlays the non-finite / denormal patterns
+                scale, overlay = None, False
+                if kind.endswith("+hostile"):
+                    kind, overlay = kind[:-8], True
+                if "*" in kind:
+                    kind, scale = kind.split("*")[0], float(kind.split("*")[1])
                 a = gen_field(kind, lv, f, idx, cen, d["seed"])
+                if scale is not None:
+                    a = a * scale
+                if overlay:
+                    a = apply_hostile(a, f, nan=True)
                 if kind == 'boxcancel':
                     # box sums 1e16, 1, -1e16, 1, ... in box order (exact: cell counts are powers of two or small):
                     # sequential accumulation gives another result than any regrouping of the boxes
